@@ -146,7 +146,7 @@ def frag : Stmt → Bool
   | .dowhile b _ => frag b
   | .for_ _ st b => frag st && frag b
   | .case_ _ | .default_ => true
-  | .switch_ _ _ => false
+  | .switch_ _ b => frag b
 
 /-- Executions of at most `fuel` are simulated (see `Post`). -/
 def SimStmt (T : Stat) (fuel : Nat) : Prop :=
